@@ -1546,6 +1546,8 @@ func ruleGenerateSumOfFiner(w *World, r *Report, rule string) {
 					}
 				} else if knownFiner && haveFiner && !rel[0] && !rel[1] {
 					bads = append(bads, "no slot is treated as covered although finer points exist and start before this archive's until: every coarser value is plain random")
+				} else if knownFiner && haveFiner && rel[0] {
+					bads = append(bads, "no slot is treated as covered when the finer points start exactly at this archive's until (finer retention = this step, generation instant in the last finer slot): the newest coarser slot is fully covered and still plain random")
 				}
 			}
 			if len(bads) == 0 && !sawTrunc {
